@@ -193,9 +193,9 @@ func init() {
 		thor:  tierCfg{worlds: 80, batchSize: 40, checks: 800, timeoutS: 1800},
 		genCfg: func(seed uint64, name string) gen.Config {
 			a := safeAllow(gen.FExamples)
-			delete(a, gen.FRecursive)
-			delete(a, gen.FTimestamp)
-			return gen.Config{Seed: seed, Name: name, Allow: a, Force: []string{gen.FExamples}, Mock: true, MockSafe: true}
+			// every other world keeps to the shapes the mock fills (examples matter there);
+			// the rest use the full field generator, incl. recursive types
+			return gen.Config{Seed: seed, Name: name, Allow: a, Force: []string{gen.FExamples, gen.RMockRecursive}, Mock: true, MockSafe: seed%2 == 0}
 		},
 		probes: func() []*spec.World {
 			return []*spec.World{
@@ -206,6 +206,11 @@ func init() {
 				mockProbe("pmockoneof", "mock-oneof-string", &spec.Field{Name: "choice_a", Number: 1, Kind: "string", Oneof: "choice"}, &spec.Field{Name: "choice_b", Number: 2, Kind: "int64", Oneof: "choice"}),
 				mockProbe("pmockts", "mock-timestamp", &spec.Field{Name: "at", Number: 1, Kind: "message", TypeName: ".google.protobuf.Timestamp"}),
 				mockProbe("pmockenummap", "mock-map-of-enum", &spec.Field{Name: "by_key", Number: 1, Kind: "enum", TypeName: ".pmockenummap.v1.Color", Card: "map", MapKey: "string"}),
+				mockProbe("pmockmapu32", "mock-map-of-uint32", &spec.Field{Name: "by_key", Number: 1, Kind: "uint32", Card: "map", MapKey: "string"}),
+				mockProbe("pmockmapbytes", "mock-map-of-bytes", &spec.Field{Name: "by_key", Number: 1, Kind: "bytes", Card: "map", MapKey: "int32"}),
+				mockProbe("pmockmapfloat", "mock-map-of-float", &spec.Field{Name: "by_key", Number: 1, Kind: "float", Card: "map", MapKey: "bool"}),
+				mockProbe("pmockmapmsg", "mock-map-of-message", &spec.Field{Name: "by_key", Number: 1, Kind: "message", TypeName: ".pmockmapmsg.v1.Leaf", Card: "map", MapKey: "uint64"}),
+				mockProbe("pmockoptnum", "mock-optional-numbers", &spec.Field{Name: "a", Number: 1, Kind: "int32", Card: "optional"}, &spec.Field{Name: "b", Number: 2, Kind: "double", Card: "optional"}, &spec.Field{Name: "c", Number: 3, Kind: "bool", Card: "optional"}, &spec.Field{Name: "d", Number: 4, Kind: "uint64", Card: "optional"}),
 				mockProbe("pmockrec", "mock-recursive-message", &spec.Field{Name: "root", Number: 1, Kind: "message", TypeName: ".pmockrec.v1.Node"}),
 				mockProbe("pmockrepmsg", "mock-repeated-message", &spec.Field{Name: "items", Number: 1, Kind: "message", TypeName: ".pmockrepmsg.v1.Leaf", Card: "repeated"}),
 			}
